@@ -19,9 +19,9 @@ INFO = dict(
               'next request is symbolic); concurrent calls on a multiplexed connection answered in any order / not at all; a timed-out '
               'multiplexed call whose late reply races a new call. Oracle: a call that returns a value returns echo(its own argument); the '
               "server's decoded request log (library codec) contains exactly the (method, argument) pairs the callers passed, each at most once.",
-  bounds={'quick': 'serial: 2 sequential calls reusing one pooled connection; a time-out during a blocked write (none / half / all of the frame delivered) followed by a second call; 3 calls issued while the client is opening (both stacks); mux: 2 concurrent calls + 1 follow-up call, time-out then late reply then tag reuse, time-out during a blocked write then tag reuse', 'thorough': 'serial: 3 sequential calls; mux: 3 concurrent calls + follow-up; otherwise as quick'},
+  bounds={'quick': 'serial: 2 sequential calls reusing one pooled connection; a time-out during a blocked write (none / half / all of the frame delivered) followed by a second call; 3 calls issued while the client is opening (both stacks); mux: 2 concurrent calls + 1 follow-up call, time-out then late reply then tag reuse, time-out during a blocked write then tag reuse', 'thorough': 'as quick plus: serial, 3 calls of which the last two are issued together (both wait in the pool queue behind the first); mux, 3 concurrent calls that are all answered (symbolic delays, any order) + 1 follow-up call, with the aperture EMA weight fixed at 1/2 for every dt > 0 (keeps the arithmetic linear; the fully symbolic weight made z3 answer unknown at this size)'},
   outside=['more calls than the bound', 'argument values other than short ASCII strings (byte-level codec: C13/C14)'],
-  stubs=['as C01 (virtual loop, fake TCP + scripted peers, timer/EMA math, random, zeroed mux Deadline bytes)',
+  stubs=['as C01 (virtual loop, fake TCP + scripted peers, timer/EMA math, random, zeroed mux Deadline bytes)', 'thorough 3-call mux job: exp(-dt/W) = 1 if dt = 0 else 1/2',
          'pool max_watermark=1 via the public builder ReplaceRole() in the serial scenario, to force connection reuse'],
   assumptions=['A1-A5'],
 )
@@ -30,8 +30,10 @@ EXPECT_COVERS = ['serial-timeout-during-blocked-write', 'calls-issued-while-open
 
 def jobs(tier):
   n = 2 if tier == 'quick' else 3
-  return [dict(name='T-serial-reuse-n%d' % n, sc='serial', n=n, cost=2000, shards=16, shard_depth=4),
-          dict(name='M-concurrent-n%d' % n, sc='mux', n=n, cost=2000, shards=8 if n == 2 else 32, shard_depth=3 if n == 2 else 5),
+  return [dict(name='T-serial-reuse-n2', sc='serial', n=2, cost=2000, shards=16, shard_depth=4)] + ([] if tier == 'quick' else [
+          dict(name='T-serial-reuse-n3-issued-together', sc='serial', n=3, together=1, cost=20000, shards=64, shard_depth=6)]) + [
+          dict(name='M-concurrent-n2', sc='mux', n=2, cost=2000, shards=8, shard_depth=3)] + ([] if tier == 'quick' else [
+          dict(name='M-concurrent-n3-all-answered', sc='mux', n=3, all_reply=True, fixed_exp='1/2', cost=20000, shards=64, shard_depth=6)]) + [
           dict(name='M-timeout-reuse', sc='muxreuse', cost=500, shards=4, shard_depth=2),
           dict(name='M-blocked-write-reuse', sc='muxblocked', cost=500, shards=4, shard_depth=2),
           dict(name='M-calls-during-open', sc='duringopen', stack='M', cost=300),
@@ -53,7 +55,7 @@ def judge_values(ars, script, issued):
 def make_body(job):
   sc = job['sc']
   def body():
-    e = stacks.setup()
+    e = stacks.setup(fixed_exp=job.get('fixed_exp'))
     if sc == 'serial':
       n = job['n']
       T = fresh_real('T', 0, 5, lo_strict=True)
@@ -66,8 +68,9 @@ def make_body(job):
       c = b.Build()
       ars = []; issued = []
       for i in range(n):
-        g = fresh_real('gap%d' % i, 0, 6)
-        if hdecide(g > 0): gevent.sleep(g)
+        if not (job.get('together') and i >= job['together']):
+          g = fresh_real('gap%d' % i, 0, 6)
+          if hdecide(g > 0): gevent.sleep(g)
         arg = 'arg%d' % i; issued.append(arg)
         ars.append((arg, c.hi_async(arg)))
         hdecide(ds[i] < T)
@@ -84,7 +87,7 @@ def make_body(job):
       n = job['n']
       T = fresh_real('T', 0, 5, lo_strict=True)
       ds = [fresh_real('server_delay%d' % i, 0, 8) for i in range(n + 1)]
-      kinds = [choose('server_kind%d' % i, 2) for i in range(n)] + [0]
+      kinds = [0 if job.get('all_reply') else choose('server_kind%d' % i, 2) for i in range(n)] + [0]
       script = netm.Script(plan=lambda i, p: ('reply', ds[min(i, n)]) if kinds[min(i, n)] == 0 else ('never',))
       e.net.endpoint('a', 1, peer=lambda s: netm.MuxPeer(s, script), connect_delay=0.1)
       c = stacks.mux_client('tcp://a:1', T)
